@@ -364,14 +364,19 @@ fn peephole3_helper(lines: &[Line], index: usize, ret: &mut Vec<Line>) -> bool {
                     ) => {
                         let a = a.parse::<f64>().unwrap();
                         let b = b.parse::<f64>().unwrap();
-                        let c = a / b;
-                        ret.push(Line::Instr {
-                            instr: Instr::PushFloat(c.to_string()),
-                            lineno,
-                            file_id,
-                            func_id,
-                        });
-                        true
+                        if b == 0.0 {
+                            // keep the division so that it fails at run time like a variable divisor
+                            false
+                        } else {
+                            let c = a / b;
+                            ret.push(Line::Instr {
+                                instr: Instr::PushFloat(c.to_string()),
+                                lineno,
+                                file_id,
+                                func_id,
+                            });
+                            true
+                        }
                     }
                     // FOLD FLOAT EXPONENTIATION
                     (
